@@ -179,4 +179,39 @@ theorem edits_are_source (ctx : Ctx E) (s : PState E) :
   ⟨fun e => (minimize_eq ctx s e).1, fun e => (maximize_eq ctx s e).1, fun c => (subjectTo_eq ctx s c).1,
    fun cs => (subjectToList_eq ctx s cs).1, fun cs => (subjectToBad_eq ctx s cs).1, (init_eq s).1⟩
 
+/-! ### C13 stated directly about the translated scripts -/
+
+def cachesEmpty (s : PState E) : Prop :=
+  s.variables = none ∧ s.solverCache = none ∧ s.lpCache = none ∧ s.isLinear = none
+
+/-- **every editing method of the source leaves all four caches empty**, whatever they held, and raises nothing
+    (for well-typed arguments) -/
+theorem edit_clears_caches_of_source_equations (s : PState E) :
+    (∀ e, cachesEmpty (exec minimizeG (.expr e) s).s ∧ (exec minimizeG (.expr e) s).raised = false)
+    ∧ (∀ e, cachesEmpty (exec maximizeG (.expr e) s).s ∧ (exec maximizeG (.expr e) s).raised = false)
+    ∧ (∀ c, cachesEmpty (exec subjectToOneG (.con c) s).s ∧ (exec subjectToOneG (.con c) s).raised = false)
+    ∧ (∀ cs, cachesEmpty (exec subjectToListG (.list cs false) s).s
+              ∧ (exec subjectToListG (.list cs false) s).raised = false) :=
+  ⟨fun _ => ⟨⟨rfl, rfl, rfl, rfl⟩, rfl⟩, fun _ => ⟨⟨rfl, rfl, rfl, rfl⟩, rfl⟩,
+   fun _ => ⟨⟨rfl, rfl, rfl, rfl⟩, rfl⟩, fun _ => ⟨⟨rfl, rfl, rfl, rfl⟩, rfl⟩⟩
+
+/-- … and records exactly the edit: objective and sense, or the appended constraints, nothing else of the model -/
+theorem edit_model_of_source_equations (s : PState E) :
+    (∀ e, (exec minimizeG (.expr e) s).s.model = { s.model with obj := some e, sense := .minimize })
+    ∧ (∀ e, (exec maximizeG (.expr e) s).s.model = { s.model with obj := some e, sense := .maximize })
+    ∧ (∀ c, (exec subjectToOneG (.con c) s).s.model = { s.model with cons := s.model.cons ++ [c] })
+    ∧ (∀ cs, (exec subjectToListG (.list cs false) s).s.model = { s.model with cons := s.model.cons ++ cs }) :=
+  ⟨fun _ => rfl, fun _ => rfl, fun _ => rfl, fun _ => rfl⟩
+
+/-- a rejected list changes nothing at all: model and caches are as before (the repaired F22) -/
+theorem rejected_list_changes_nothing_of_source_equations (s : PState E) (cs : List (Con E)) :
+    (exec subjectToListG (.list cs true) s).s = s ∧ (exec subjectToListG (.list cs true) s).raised = true :=
+  ⟨rfl, rfl⟩
+
+/-- the pre-repair form of `subject_to` (`for c in constraint: append(validate(c))`) is a script for which that fails:
+    the valid prefix stays appended behind still-populated caches -/
+example (c : Con Nat) :
+    (runEffs (.list [c] true) ⟨init (fun _ => (none, none)), [], false, false⟩
+      [.appendEachValidated, .invalidate]).s.model.cons = [c] := rfl
+
 end Optyx.Props.StateTie
